@@ -27,7 +27,8 @@ ASSUMPTIONS = [
 
 A5 = (-2.0, -1.0, 0.0, 1.0, 2.0)
 DETS = ("ThreePointDetector", "FourPointDetector", "FKMDetector")
-AFFINE = [(a, b) for a in (0.5, 2.0, 8.0) for b in (0.0, 1.0, -7.5)]
+AFFINE = [(a, b) for a in (0.5, 2.0, 8.0) for b in (0.0, 1.0, -7.5)] + [(2.0 ** -30, 0.0), (2.0 ** 30, 0.0), (2.0 ** -40, 2.0 ** -38)]
+TINY = 2.0 ** -30     # "near" insertions: a non-reversal sample this close to its neighbour (exactly representable)
 
 
 def bounds(tier):
@@ -54,11 +55,14 @@ class Raised(Exception):
     pass
 
 
-def _run(detname, samples):
+def _run(detname, samples, border=None):
     import pylife.stress.rainflow as RF
     det = getattr(RF, detname)(recorder=RF.FullRecorder())
     try:
-        det.process(samples)
+        if border is None:
+            det.process(samples)
+        else:
+            det.process(samples[:border]).process(samples[border:])
     except Exception as e:  # noqa: BLE001
         raise Raised(detname, type(e).__name__, str(e)[:200])
     rec = det.recorder
@@ -98,16 +102,21 @@ def _insertions(sig, k):
     """all ways to insert k non-reversal samples: each (gap i, kind) inserts after sample i"""
     n = len(sig)
     opts = [(i, kind) for i in range(n - 1) for kind in ("copy", "mid")]
+    opts += [(i, kind) for i in range(n - 1) if sig[i] != sig[i + 1] for kind in ("near-next", "near-prev")]
     for combo in itertools.combinations_with_replacement(opts, k):
         new, pos = [], []
         for i in range(n):
             new.append(sig[i])
-            here = sorted([kind for (j, kind) in combo if j == i], key=lambda s: s != "copy")  # copies first, then midpoints
+            order = {"copy": 0, "near-prev": 1, "mid": 2, "near-next": 3}       # keeps the segment monotone
+            here = sorted([kind for (j, kind) in combo if j == i], key=lambda k: order[k])
             for kind in here:
                 if kind == "copy":
                     new.append(sig[i])
-                else:
+                elif kind == "mid":
                     new.append((sig[i] + sig[i + 1]) / 2.0)
+                else:
+                    d = TINY if sig[i + 1] > sig[i] else -TINY
+                    new.append(sig[i + 1] - d if kind == "near-next" else sig[i] + d)
                 pos.append(len(new) - 1)
         # two midpoints in one gap would repeat a value (a plateau on a slope) - still no reversal
         yield combo, new, pos
@@ -192,6 +201,15 @@ def _check_signal(sig, deep):
                 if not any(issubclass(x.category, UserWarning) for x in w):
                     viol.append(("C03/nan/%s/no-warning" % d, {"nan_positions": list(pos), "signal": new}))
                 judge("nan", d, got, _expect(base[d], inserted_at=list(pos)), {"nan_positions": list(pos)})
+            if k == 1:
+                # the same NaN-carrying signal fed in two chunks, every border (NaN first / last in a chunk included)
+                for border in range(1, total):
+                    for d in DETS:
+                        with warnings.catch_warnings(record=True):
+                            warnings.simplefilter("always")
+                            got = _run(d, a, border)
+                        evals += 1
+                        judge("nan-chunked", d, got, _expect(base[d], inserted_at=list(pos)), {"nan_positions": list(pos), "border": border})
     # Series of every index type
     for kind in SERIES_INDEX:
         s = _series(sig, kind)
